@@ -387,14 +387,53 @@ def _parse_scn(txt):
 # keys of one bucket (bits=8: first digest byte 7) sharing 2-3 leading bytes
 CKEYS = ["120607070701010a", "120607070702020b", "120607070701020c", "120607070801010d", "12060707070102ee"]
 
+# keys in three buckets (bits=8: first digest byte 5, 6, 7), sharing leading bytes inside a bucket
+MKEYS = ["120605070701010a", "120605070702020b", "120606070701020c", "120606070801010d", "12060707070102ee", "120607070703010f"]
+
 def _conc_scenarios(rng, n, gc):
     scen = []
     for _ in range(n):
-        keys = rng.sample(CKEYS, rng.randint(2, 4))
+        fam = rng.random()
+        if gc and fam < 0.3:
+            # relocation-targeted: a low-use primary file whose last busy record is K; a caller works on K while a cycle relocates it
+            K = "1206070707090909"
+            others = ["12060707070%d0%d0%d" % (i, i, i) for i in range(1, 7)]
+            nsup = rng.choice((3, 4, 6))
+            pmax = {3: 100, 4: 130, 6: 190}[nsup]
+            setup = ["setup put %s %s" % (o, "61" * 18) for o in others[:nsup]] + ["setup put %s %s" % (K, "31" * 18), "setup flush"] + \
+                    ["setup put %s %s" % (o, "41" * 18) for o in others[:nsup]] + ["setup flush"]
+            th = [("T0", rng.choice(("remove %s" % K, "put %s %s" % (K, "32" * 18), "put %s %s" % (K, "3233"), "get %s" % K, "size %s" % K))),
+                  ("G1", "pgc %d" % rng.choice((25, 50, 60)))]
+            if rng.random() < 0.5:
+                th.append(("T1", rng.choice(("get %s" % K, "has %s" % K, "flush", "get %s" % others[0]))))
+            names = [t[0] for t in th]
+            sched = [rng.choice(names) for _ in range(rng.randint(6, 40))]
+            scen.append("cfg bits=8 imax=1048576 pmax=%d timeout_ms=3000\n" % pmax + "\n".join(setup) + "\n" +
+                        "".join("thread %s %s\n" % t for t in th) + "schedule " + " ".join(sched) + "\n" + ("free flush\n" if rng.random() < 0.3 else ""))
+            continue
+        if gc and fam < 0.45:
+            # flush-versus-index-GC: several index files (tiny limit), dirty buckets waiting to be flushed, a Flush and an index cycle
+            setup = []
+            for rnd in range(rng.randint(2, 3)):
+                for k in MKEYS:
+                    if rng.random() < 0.8:
+                        setup += ["setup put %s %s" % (k, "%02x" % (0x61 + rnd) * rng.randint(1, 6)), "setup flush"]
+            dirty = rng.sample(MKEYS, rng.randint(2, 5))
+            setup += ["setup put %s %s" % (k, "7a" * rng.randint(1, 5)) for k in dirty]
+            th = [("F1", "flush"), ("G1", "igc %d" % rng.randint(0, 1)), ("T0", "get %s" % rng.choice(MKEYS))]
+            if rng.random() < 0.4:
+                th.append(("T1", "put %s 7171" % rng.choice([k for k in MKEYS if k not in dirty] or MKEYS)))
+            names = [t[0] for t in th]
+            sched = ["F1"] * rng.randint(1, 3) + [rng.choice(names) for _ in range(rng.randint(4, 30))]
+            scen.append("cfg bits=8 imax=%d pmax=1048576 timeout_ms=3000\n" % rng.choice((40, 52, 64)) + "\n".join(setup) + "\n" +
+                        "".join("thread %s %s\n" % t for t in th) + "schedule " + " ".join(sched) + "\n")
+            continue
+        pool = MKEYS if (gc and fam < 0.75) else CKEYS
+        keys = rng.sample(pool, rng.randint(2, 4))
         vals = ["61", "6262", "636363", "-", "6464646464646464"]
         setup = []
         pmax = rng.choice((60, 100, 1048576)) if gc else 1048576
-        imax = rng.choice((64, 100, 1048576)) if gc else 1048576
+        imax = rng.choice((40, 64, 100, 1048576)) if gc else 1048576
         for k in keys:
             r = rng.random()
             if r < 0.6:
@@ -403,7 +442,7 @@ def _conc_scenarios(rng, n, gc):
             setup.append("setup flush")
         if gc:
             # garbage for the collectors: overwrites and removals that are flushed
-            for k in rng.sample(CKEYS, 3):
+            for k in rng.sample(pool, 3):
                 if k not in keys:
                     setup += ["setup put %s %s" % (k, rng.choice(vals)), "setup flush", "setup put %s %s" % (k, "7a7a7a7a7a7a7a7a7a7a"), "setup flush"]
             if rng.random() < 0.5:
@@ -428,11 +467,11 @@ def _conc_scenarios(rng, n, gc):
                 th.append(("T%d" % i, "%s %s" % (kind, k)))
         if gc:
             # one cycle of each collector at most: the store runs one goroutine per collector
-            g1 = rng.choice(("pgc %d" % rng.randint(20, 90), "igc 1", "igc 0"))
+            g1 = rng.choice(("pgc %d" % rng.randint(20, 90), "igc 1", "igc 0", "igc 0"))
             th.append(("G1", g1))
             if rng.random() < 0.4:
                 th.append(("G2", "igc %d" % rng.randint(0, 1) if g1.startswith("pgc") else "pgc %d" % rng.randint(20, 90)))
-            if rng.random() < 0.6 and not any(t[1] == "flush" for t in th):
+            if rng.random() < 0.7 and not any(t[1] == "flush" for t in th):
                 th.append(("F1", "flush"))
         names = [t[0] for t in th]
         sched = [rng.choice(names) for _ in range(rng.randint(6, 45))]
@@ -468,6 +507,13 @@ def _lin_check(ctx, gc):
             bad = "call(s) %s never returned" % r["stuck"]
         else:
             bad = lin.check(setup, r["threads"], r["final"], imm)
+            if bad is None:
+                for nm2, ff in (("after two further flushes", r.get("final_flushed") or {}), ("after Close and reopen by rescan", r.get("final_reopened") or {})):
+                    for kh, v in ff.items():
+                        if kh in r["final"] and v != r["final"][kh]:
+                            bad = "contents changed %s: Get(%s) was %s, now %s" % (nm2, kh, r["final"][kh], v)
+                        elif kh not in r["final"] and str(v).startswith("ERR"):
+                            bad = "%s: %s %s" % (nm2, kh, v)
         # interleaving actually happened: two threads' events alternate
         seq = [e["t"] for e in (r["events"] or [])]
         switches = sum(1 for a, b in zip(seq, seq[1:]) if a != b)
